@@ -26,6 +26,7 @@ D4 == Class("shares-absent", {"sh.bad", "sh.absent"}, 2, "rev1")
 D5 == Class("accuser-dropped", {"sh.bad", "acc.member"}, 3, "rev1")
 D7 == Class("partial-points", {"pts.partial", "acc.member"}, 2, "rev1")
 Directed3 == {Single3, D6}
+Branch3 == {Single3}
 Directed5 == {D3b, D4, D5, D7}
 C02AsIs == {D3b}
 
@@ -86,4 +87,58 @@ All2corrupt == All(2, "corrupt")
 All1asc == All(1, "asc")
 All4full == All(4, "full")
 UpToT == {S \in SUBSET Members : Cardinality(S) <= T}
+
+\* Branch coverage scripts (n = 5, corrupt = {4, 5}): one scenario per decision
+\* branch of the accusation resolution (states 5 and 9) and of the reveal
+\* validation / share recovery (state 11).  4 is the accuser / revealer, 5 the
+\* accused / revealed member.
+EW(i) == [id |-> i, ok |-> FALSE]
+Acc4(S) == At1("A4", 4, <<M(4, "acc4", S)>>)
+Acc8(S) == At1("A8", 4, <<M(4, "acc8", S)>>)
+Rev4(S) == At1("A10", 4, <<M(4, "rev", S)>>)
+Sh5(dev) == At1("A3", 5, <<Sh(5, dev), Cm(5)>>)
+B5 == {
+  \* ---- state 5
+  Scripted("b5-accused-silent-in-1", "asc", At1("A1", 5, <<>>) @@ Acc4({E(5)})),
+  Scripted("b5-accused-eph-missing", "asc", At1("A1", 5, <<M(5, "eph", "missing")>>) @@ Acc4({E(5)})),
+  Scripted("b5-accused-no-shares", "asc", At1("A3", 5, <<Cm(5)>>) @@ Acc4({E(5)})),
+  Scripted("b5-accused-no-commits", "asc", At1("A3", 5, <<Sh(5, <<>>)>>) @@ Acc4({E(5)})),
+  Scripted("b5-accused-wrong-commits", "asc", At1("A3", 5, <<Sh(5, <<>>), M(5, "commits", <<"wrong">>)>>) @@ Acc4({E(5)})),
+  Scripted("b5-share-undec", "asc", Sh5(4 :> "undec") @@ Acc4({E(5)})),
+  Scripted("b5-share-bad", "asc", Sh5(4 :> "bad") @@ Acc4({E(5)})),
+  Scripted("b5-share-absent", "asc", Sh5(4 :> "absent") @@ Acc4({E(5)})),
+  Scripted("b5-false-accusation", "asc", Acc4({E(5)})),
+  Scripted("b5-wrong-key", "asc", Sh5(4 :> "bad") @@ Acc4({EW(5)})),
+  Scripted("b5-accuses-honest", "asc", Acc4({E(1)})),
+  Scripted("b5-accuses-zero", "asc", Acc4({E(0)})),
+  Scripted("b5-accuses-nonexistent", "asc", Acc4({E(6)})),
+  Scripted("b5-accuses-many", "asc", Sh5(4 :> "bad") @@ Acc4({E(5), E(2), EW(3)})),
+  Scripted("b5-silent-in-4", "asc", At1("A4", 4, <<>>)),
+  Scripted("b5-second-accusation", "asc", At1("A4", 4, <<M(4, "acc4", {}), M(4, "acc4", {E(1)})>>)),
+  \* ---- state 9
+  Scripted("b9-false-accusation", "asc", Acc8({E(5)})),
+  Scripted("b9-share-bad-unreported", "asc", Sh5(4 :> "bad") @@ Acc8({E(5)})),
+  Scripted("b9-share-undec-unreported", "asc", Sh5(4 :> "undec") @@ Acc8({E(5)})),
+  Scripted("b9-accused-silent-in-7", "asc", At1("A7", 5, <<>>) @@ Acc8({E(5)})),
+  Scripted("b9-accused-wrong-points", "asc", At1("A7", 5, <<M(5, "pts", [cnt |-> "wrong", okFor |-> Members])>>) @@ Acc8({E(5)})),
+  Scripted("b9-points-invalid-for-accuser", "asc", At1("A7", 5, <<Pts(5, {})>>) @@ Acc8({E(5)})),
+  Scripted("b9-wrong-key", "asc", At1("A7", 5, <<Pts(5, {})>>) @@ Acc8({EW(5)})),
+  Scripted("b9-accuses-honest", "asc", Acc8({E(2)})),
+  Scripted("b9-accuses-nonexistent", "asc", Acc8({E(6), E(0)})),
+  Scripted("b9-accused-inactive-since-5", "asc", At1("A4", 5, <<>>) @@ Acc8({E(5)})),
+  Scripted("b9-silent-in-8", "asc", At1("A8", 4, <<>>)),
+  \* ---- states 10 / 11 (5 is silent in state 4: inactive QUAL member, to be reconstructed)
+  Scripted("b11-honest-reveal", "asc", At1("A4", 5, <<>>) @@ Rev4({E(5)})),
+  Scripted("b11-missing-reveal", "asc", At1("A4", 5, <<>>) @@ Rev4({})),
+  Scripted("b11-wrong-key", "asc", At1("A4", 5, <<>>) @@ Rev4({EW(5)})),
+  Scripted("b11-silent-in-10", "asc", At1("A4", 5, <<>>) @@ At1("A10", 4, <<>>)),
+  Scripted("b11-share-bad-unreported", "asc", Sh5(4 :> "bad") @@ At1("A4", 5, <<>>) @@ Rev4({E(5)})),
+  Scripted("b11-share-undec-unreported", "asc", Sh5(4 :> "undec") @@ At1("A4", 5, <<>>) @@ Rev4({E(5)})),
+  Scripted("b11-reveals-honest", "asc", At1("A4", 5, <<>>) @@ Rev4({E(5), E(1)})),
+  Scripted("b11-reveals-nonqual", "asc", At1("A1", 5, <<>>) @@ Rev4({E(5)})),
+  Scripted("b11-reveals-disqualified-in-5", "asc", Sh5(1 :> "bad") @@ Rev4({E(5)})),
+  Scripted("b11-disqualified-in-9-reconstructed", "asc", At1("A7", 5, <<Pts(5, {1})>>) @@ Rev4({E(5)})),
+  Scripted("b11-silent-in-7-reconstructed", "asc", At1("A7", 5, <<>>) @@ Rev4({E(5)})),
+  Scripted("b11-both-silent-in-7", "asc", At1("A7", 5, <<>>) @@ At1("A7", 4, <<>>)),
+  Scripted("b11-second-reveal", "rev1", At1("A4", 5, <<>>) @@ At1("A10", 4, <<M(4, "rev", {E(5)}), M(4, "rev", {})>>)) }
 =============================================================================
